@@ -253,8 +253,8 @@ PROPS["C15"] = dict(
 )
 
 # emulated NEON / simd128 builds join the thorough tier of the properties whose cases reach architecture-specific code
-for _p in ("C01", "C02", "C06", "C07", "C09", "C11", "C12", "C03", "C04", "C10"):
+for _p in ("C01", "C02", "C06", "C07", "C09", "C11", "C12", "C03", "C04", "C10", "C19"):
     PROPS[_p]["emu"] = ["neon", "simd128"]
-for _p in ("C01", "C02", "C06", "C07", "C09", "C11", "C12", "C03", "C04", "C10"):
+for _p in ("C01", "C02", "C06", "C07", "C09", "C11", "C12", "C03", "C04", "C10", "C19"):
     PROPS[_p]["emu_quick"] = True          # the emulated pass costs 10-20 s: it runs in both tiers
     PROPS[_p]["emu_max_quick"] = 15000
